@@ -110,8 +110,15 @@ EXACT_OK = ('circle', 'ellipse')          # classes whose 'exact' mode is implem
 
 
 # ------------------------------------------------------------------ lattice --
+_ANG_REPS = {0.0: ('deg', 'quantity'), 30.0: ('arcmin', 'quantity'), 45.0: ('rad', 'angle'), 90.0: ('arcsec', 'quantity'),
+             123.4: ('rad', 'quantity'), -60.0: ('arcmin', 'angle')}
+
+
 def _ang(d):
-    return [d, 'deg', 'quantity']
+    # the same angle expressed in another unit (the unit is part of the path: raw values must never be used)
+    unit, kind = _ANG_REPS.get(float(d), ('deg', 'quantity'))
+    from mc import catalog as _K
+    return _K.angle_spec(float(d), unit, kind)
 
 
 def _templates(tier):
